@@ -31,6 +31,7 @@ ASSUMPTIONS = [
     'file contents are uninterpreted functions of (file, byte offset) resp. (row, col): a read at a wrong '
     'offset/item size/channel count yields a different term',
     'mtscomp.Reader replaced by a stub honouring its __getitem__ contract; real decoder only in witness replays',
+    'call forms added after seeding rounds: dtype= keyword on npy/array readers, an earlier read of another symbolic range on the same reader, slice bounds / integer index given as unsigned NumPy scalars (uint8/16/32, values representable in the type)',
 ]
 STUBS = ['Path.stat().st_size', 'np.memmap (lambda array over the file bytes)', 'np.load(mmap_mode=r)',
          'mtscomp.Reader (contract stub)']
